@@ -180,7 +180,8 @@ def _bit_or(p: Path, a: Any, b: Any) -> Any:
             for w in (1, 2, 4, 8, 16, 32):
                 if p.entails(z3.And(ty >= 0, ty < (1 << (sft + w)))):
                     if p.entails(((tx / (1 << sft)) % (1 << w)) == 0):
-                        return mk_int(tx + ty)
+                        t_min = min(tz_of(x), tz_of(y))
+                        return mk_int(tx + ty, t_min if t_min < (1 << 29) else 0)
                     break
     for x, tx, y, ty in ((a, ta, b, tb), (b, tb, a, ta)):
         c = tz_of(x)
